@@ -7,6 +7,7 @@ A *case* is a dict
   creds  : list of [login, password, user]   (initial credentials table of the scripted back-end;
            first row whose login matches decides; user is what `_login` returns)
   events : list of ["A", login, password] | ["T", dt_ns] | ["C", creds]
+           | ["F", login, password]   (an attempt during which the back-end raises BackendDown instead of answering)
 """
 import ast
 import logging
@@ -66,6 +67,10 @@ S = 10 ** 9
 T0 = 1_700_000_000 * S           # realistic epoch: every salt str(time_ns) has 19 digits
 
 
+class BackendDown(RuntimeError):
+    """What the scripted back-end raises when told to fail (connection error, file missing for a moment, ...)."""
+
+
 class Clock:
     """Stands in for the `time` module as seen by radicale.auth (time_ns, sleep, time)."""
 
@@ -119,7 +124,12 @@ def make_auth(case):
             self.calls = []                  # (clock, login, password, answer)
             super().__init__(configuration)
 
+        fault = False
+
         def _login(self, login, password):
+            if self.fault:
+                self.calls.append((auth.time.time_ns(), login, password, None))   # no verdict
+                raise BackendDown("scripted back-end failure")
             ans = table_answer(self.table, login, password)
             self.calls.append((auth.time.time_ns(), login, password, ans))     # stamped with the caller's clock
             return ans
@@ -156,9 +166,10 @@ def run_real(case, snapshot=True):
         moments = [(clock.t, list(a.table))]
         seen_times = {case["t0"]}
         for ev in case["events"]:
-            if ev[0] == "A":
+            if ev[0] in ("A", "F"):
                 ncalls = len(a.calls)
                 seen_times.add(clock.t)
+                a.fault = ev[0] == "F"
                 try:
                     user, info = a.login(ev[1], ev[2])
                     out = ("ret", user, info.endswith(" / cached"))
@@ -168,7 +179,8 @@ def run_real(case, snapshot=True):
                     out = ("raise", "KeyError")
                 except Exception as e:  # noqa: BLE001
                     out = ("raise", type(e).__name__)
-                obs.append(dict(now=clock.t, login=ev[1], pw=ev[2], out=out, called=len(a.calls) > ncalls,
+                a.fault = False
+                obs.append(dict(now=clock.t, login=ev[1], pw=ev[2], out=out, called=len(a.calls) > ncalls, fault=ev[0] == "F",
                                 calls_before=ncalls, calls_after=len(a.calls),
                                 nsucc=len(getattr(a, "_cache_successful", ())),
                                 nfailed=len(getattr(a, "_cache_failed", ())), moment=len(moments) - 1))
@@ -193,7 +205,7 @@ def snapshot_sym(a, case, seen_times):
         return [], []
     logins, pws = set(), set()
     for ev in case["events"]:
-        if ev[0] == "A":
+        if ev[0] in ("A", "F"):
             logins.add(map_login_spec(case["cfg"], ev[1]))
             pws.add(ev[2])
     table = {}
@@ -223,9 +235,9 @@ Require Import RV.Lib.PyStr RV.Model.LoginCache.
 Open Scope string_scope.
 Open Scope Z_scope.
 Definition t_ (d : Z) : Z := 1700000000000000000 + d.
-Definition A_ := @Attempt creds.
-Definition T_ := @Tick creds.
-Definition C_ := @Change creds.
+Definition A_ (l p : pystr) := CE (@Attempt creds l p).
+Definition T_ (d : Z) := CE (@Tick creds d).
+Definition C_ (b : creds) := CE (@Change creds b).
 """
 
 
@@ -250,6 +262,8 @@ def enc_cfg(case):
 def enc_event(ev):
     if ev[0] == "A":
         return "(A_ %s %s)" % (enc_str(ev[1]), enc_str(ev[2]))
+    if ev[0] == "F":
+        return "(CFault %s %s)" % (enc_str(ev[1]), enc_str(ev[2]))
     if ev[0] == "T":
         return "(T_ %s)" % enc_Z(ev[1])
     return "(C_ %s)" % enc_creds(ev[1])
@@ -263,7 +277,7 @@ def enc_case(case):
 def enc_outcome(out):
     if out[0] == "ret":
         return "(ORet %s %s)" % (enc_str(out[1]), enc_bool(out[2]))
-    return "(ORaise %s)" % ("KeyError" if out[1] == "KeyError" else "OtherError")
+    return "(ORaise %s)" % ({"KeyError": "KeyError", "BackendDown": "BackendError"}.get(out[1], "OtherError"))
 
 
 def enc_dval(d):
@@ -296,8 +310,15 @@ def monitor(case, res):
     for i, o in enumerate(res["obs"]):
         m = map_login_spec(cfg, o["login"])
         now = o["now"]
+        faulted = any(c[3] is None for c in res["calls"][o["calls_before"]:o["calls_after"]])
         if o["out"][0] == "raise":
+            if faulted and o["out"][1] == "BackendDown":
+                continue          # the back-end's own exception, passed on: no verdict, nothing to justify
             return ("never-raises", i, "login(%r, %r) raised %s" % (o["login"], o["pw"], o["out"][1]))
+        if faulted:
+            return ("backend-fault-is-no-verdict", i, "the back-end raised while checking (%r, %r); login(%r, %r) answered %r instead of "
+                    "passing the failure on (a failure of the back-end is neither an acceptance nor a rejection)"
+                    % (m, o["pw"], o["login"], o["pw"], o["out"][1]))
         user = o["out"][1]
         if not cache_enabled(cfg):
             want = table_answer(res["moments"][o["moment"]][1], m, o["pw"])
@@ -329,7 +350,7 @@ def monotone(case):
 
 def project(case, m):
     """The history without the attempts made under other (mapped) logins."""
-    evs = [ev for ev in case["events"] if ev[0] != "A" or map_login_spec(case["cfg"], ev[1]) == m]
+    evs = [ev for ev in case["events"] if ev[0] not in ("A", "F") or map_login_spec(case["cfg"], ev[1]) == m]
     return dict(case, events=evs)
 
 
@@ -381,11 +402,12 @@ def describe(case, res):
     lines = []
     k = 0
     for ev in case["events"]:
-        if ev[0] == "A":
+        if ev[0] in ("A", "F"):
             o = res["obs"][k]
             k += 1
             lines.append("t=%+.9fs login(%r, %r) -> %s%s" % ((o["now"] - case["t0"]) / 1e9, ev[1], ev[2], o["out"],
-                                                          " [back-end asked]" if o["called"] else ""))
+                                                          " [back-end asked%s]" % (" and RAISED BackendDown" if ev[0] == "F" else "")
+                                                          if o["called"] else ""))
         elif ev[0] == "T":
             lines.append("clock %+d ns" % ev[1])
         else:
@@ -411,3 +433,37 @@ def age_expressions():
                         out.append((sub.targets[0].id + "@%d" % sub.lineno,
                                     (lambda code: lambda now, t: eval(code, {"int": int, "time_ns": now, "time_ns_cache": t}))(code)))
     return out
+
+
+def diff_encoded(ctx, tag, fn, enc, eqb, shard):
+    """Like core.Ctx.diff_cases for pre-encoded (input, expected) texts, but every shard gets a header with only the
+    interned strings it mentions (long secrets make the full table expensive to elaborate 20 times)."""
+    import re
+    names = {v: k for k, v in INTERN.names.items()}
+
+    def definition(n):
+        s_ = names[n]
+        if all(32 <= ord(c) < 127 and c != '"' for c in s_):
+            return 'Definition %s : pystr := str "%s".' % (n, s_)
+        return "Definition %s : pystr := %s." % (n, core.enc_str(s_))
+    files = {}
+    for k in range(0, len(enc), shard):
+        chunk = enc[k:k + shard]
+        rows = ";\n".join("(%s, %s)" % (i, o) for i, o in chunk)
+        used = sorted(set(re.findall(r"\bs_\d+\b", rows)), key=lambda x: int(x[2:]))
+        body = (HEADER + "\n".join(definition(n) for n in used) + "\nDefinition cases_ := [\n%s\n].\n" % rows +
+                "Fixpoint bad_ {A B} (f : A -> B -> bool) (l : list (A * B)) (i : N) : list N :=\n"
+                "  match l with nil => nil | (a, b) :: r => if f a b then bad_ f r (N.succ i) else i :: bad_ f r (N.succ i) end.\n"
+                "Definition result_ := bad_ (fun i o => %s (%s i) o) cases_ 0%%N.\n"
+                "Eval vm_compute in result_.\n" % (eqb, fn))
+        files["%s_%d" % (tag, k // shard)] = body
+    res = ctx.coq_eval_many(files)
+    bad = []
+    for name, (rc, out) in sorted(res.items(), key=lambda kv: int(kv[0].rsplit("_", 1)[1])):
+        k = int(name.rsplit("_", 1)[1]) * shard
+        m = re.search(r"=\s*(.*?)\s*:\s*list N", out, re.S)
+        if rc != 0 or not m:
+            ctx.obligation("correspondence:%s:model-evaluates" % tag, False, out[-1500:])
+            return None
+        bad += [k + int(x) for x in re.findall(r"\d+", m.group(1))]
+    return bad
